@@ -19,6 +19,9 @@ use crate::world::*;
 use serde::de::DeserializeOwned;
 use serde::Serialize;
 use serde_json::{json, Value};
+use stats_ci::comparison::{Paired, Unpaired};
+use stats_ci::mean::{Arithmetic, Geometric, Harmonic, StatisticsOps};
+use stats_ci::proportion;
 use stats_ci::{Confidence, Interval};
 use std::collections::BTreeMap;
 
@@ -188,7 +191,80 @@ fn corpus_roundtrip(seed: u64) -> Result<u64, String> {
         iv_rt::<i64>(Interval::TwoSided(-(a as i64 / 4), a as i64 / 2)).map_err(|e| format!("Interval<i64>::TwoSided: {e}"))?;
         n += 4;
     }
+    // states at the far ends of their counters: a few records merged with copies of themselves up
+    // to 40 times (count = len * 2^k, beyond 32 bits), counters built directly at 2^32, 2^53 + 1 and
+    // usize::MAX, and states holding extreme magnitudes (quantile::Stats has no serde impl and is not
+    // among the states C20 lists)
+    for k in [0u32, 1, 16, 31, 32, 33, 40] {
+        let rep = |what: &str, e: String| format!("{what} after {k} self-merges: {e}");
+        let a64 = [1.5f64, 2.25, 4.0];
+        let b64 = [0.75f64, 3.5, 1.0e3];
+        let a32 = [1.5f32, 2.25, 4.0];
+        let b32 = [0.75f32, 3.5, 1.0e3];
+        let mut s = Arithmetic::<f64>::from_iter(&a64).map_err(|e| e.to_string())?;
+        let mut g = Geometric::<f64>::from_iter(&a64).map_err(|e| e.to_string())?;
+        let mut h = Harmonic::<f64>::from_iter(&a64).map_err(|e| e.to_string())?;
+        let mut s32 = Arithmetic::<f32>::from_iter(&a32).map_err(|e| e.to_string())?;
+        let mut p = Paired::<f64>::default();
+        p.extend(&a64, &b64).map_err(|e| e.to_string())?;
+        let mut u = Unpaired::<f64>::from_iter(&a64, &[0.75f64, 3.5]).map_err(|e| e.to_string())?;
+        let mut u32s = Unpaired::<f32>::from_iter(&a32, &[0.75f32, 3.5]).map_err(|e| e.to_string())?;
+        let mut pr = proportion::Stats::new(7, 3);
+        for _ in 0..k {
+            s = s + s;
+            g = g + g;
+            h = h + h;
+            s32 = s32 + s32;
+            p = p.clone() + p;
+            u = u.clone() + u;
+            u32s = u32s.clone() + u32s;
+            pr = pr.clone() + pr;
+        }
+        state_rt(&s, true).map_err(|e| rep("Arithmetic<f64>", e))?;
+        state_rt(&g, true).map_err(|e| rep("Geometric<f64>", e))?;
+        state_rt(&h, true).map_err(|e| rep("Harmonic<f64>", e))?;
+        state_rt(&s32, false).map_err(|e| rep("Arithmetic<f32>", e))?;
+        state_rt(&p, true).map_err(|e| rep("Paired<f64>", e))?;
+        state_rt(&u, true).map_err(|e| rep("Unpaired<f64>", e))?;
+        state_rt(&u32s, false).map_err(|e| rep("Unpaired<f32>", e))?;
+        state_rt(&pr, true).map_err(|e| rep("proportion::Stats", e))?;
+        n += 8;
+    }
+    for &pop in &[1usize << 32, (1usize << 32) + 1, (1usize << 53) + 1, usize::MAX - 1, usize::MAX] {
+        for &k in &[0usize, 1, pop / 3, pop - 1, pop] {
+            state_rt(&proportion::Stats::new(pop, k), true).map_err(|e| format!("proportion::Stats::new({pop}, {k}): {e}"))?;
+            n += 1;
+        }
+    }
+    for data in [[f64::MIN_POSITIVE, 5e-324, 1e-300], [1e150, -1e150, 1e-150], [0.1, 0.1, 0.1], [0.0, -0.0, 0.0]] {
+        let s = Arithmetic::<f64>::from_iter(&data).map_err(|e| e.to_string())?;
+        state_rt(&s, true).map_err(|e| format!("Arithmetic<f64> over {data:?}: {e}"))?;
+        n += 1;
+    }
     Ok(n)
+}
+
+/// one state through both encoders: identical Debug fingerprint and equal under PartialEq
+fn state_rt<S>(s: &S, json_ok: bool) -> Result<(), String>
+where
+    S: Serialize + DeserializeOwned + std::fmt::Debug + PartialEq,
+{
+    let b = wire::to_bytes(s).map_err(|e| format!("serialize: {e}"))?;
+    let r: S = wire::from_bytes(&b).map_err(|e| format!("deserialize: {e}"))?;
+    if format!("{:?}", r) != format!("{:?}", s) {
+        return Err(format!("wire: {:?} came back as {:?}", s, r));
+    }
+    if r != *s && !has_nonfinite(&format!("{:?}", s)) {
+        return Err(format!("wire: {:?} does not compare equal to its round trip", s));
+    }
+    if json_ok {
+        let js = serde_json::to_vec(s).map_err(|e| format!("json serialize: {e}"))?;
+        let r: S = serde_json::from_slice(&js).map_err(|e| format!("json deserialize of {}: {e}", String::from_utf8_lossy(&js)))?;
+        if format!("{:?}", r) != format!("{:?}", s) {
+            return Err(format!("json: {:?} came back as {:?}", s, r));
+        }
+    }
+    Ok(())
 }
 
 struct Durable {
